@@ -141,7 +141,7 @@ PROPS['C05']['engines'].append(dict(name='launchorder', nomodel=True, must_hit=[
 PROPS['C19']['modules'] = ['Vivid.Props.C19', 'Vivid.Props.C19C20Global']
 PROPS['C09']['modules'] = ['Vivid.Props.C09', 'Vivid.Props.C09Global']
 PROPS['C08']['modules'] = ['Vivid.Props.C08', 'Vivid.Props.C08Frame']
-PROPS['C03']['modules'] = ['Vivid.Props.C03', 'Vivid.Props.C03Global', 'Vivid.Props.C09Global']
+PROPS['C03']['modules'] = ['Vivid.Props.C03', 'Vivid.Props.C03Global', 'Vivid.Props.C03Exact', 'Vivid.Props.C09Global']
 PROPS['C06']['engines'].append(dict(name='killorder', nomodel=True, must_hit=['variant:0', 'variant:3', 'variant:7', 'variant:15']))
 PROPS['C06']['rule'] = AS_RULE + (' killorder (monitor only): parent + fixed-name child (optionally with a grandchild, a watcher, poison, two ActorKilledEvent subscribers) under the baton with extra scheduling points after each '
                                   'notification group of the termination clean-up (yield sites kh.*), seeded random schedules (12 / thorough 200 per variant x 16 variants): whenever a parent or watcher observes OnKilled{X}, '
